@@ -406,7 +406,7 @@ func propSpecs() map[string]*PropSpec {
 	add(c09)
 
 	// ---- C11
-	c11 := &PropSpec{ID: "C11", Level: "model_checking", Assumptions: append([]string{"inputs are single paragraphs built from units: '*', '_', an ASCII letter/digit (symbolic), space, an ASCII punctuation byte from #$%()+,-./:;=?@^{|}~ (symbolic), and (second bound) U+00A0, U+2014, U+00E9; unit sequences that Parse does not read as exactly one paragraph are excluded (assume)", "the reference is the spec's process-emphasis procedure without openers_bottom, validated during design on 108 of the spec's emphasis examples"}, commonAssumptions...), QuickSec: 170, ThoroughSec: 900,
+	c11 := &PropSpec{ID: "C11", Level: "model_checking", Assumptions: append([]string{"inputs are single paragraphs built from units: '*', '_', an ASCII letter/digit (symbolic), space, an ASCII punctuation byte from #$%()+,-./:;=?@^{|}~ (symbolic), (second bound) U+00A0, U+2014, U+00E9, and (third bound) any character of U+0080..U+00FF (symbolic); unit sequences that Parse does not read as exactly one paragraph are excluded (assume)", "unit harness H_C11_stack: processEmphasis is run from a directly constructed inlineState (k runs of '*' or '_' of length 1..3 separated by one-byte text nodes, arbitrary can-open / can-close flags); every such stack is the parse state of some paragraph, since the flanking of a run depends only on its two neighbour characters", "the reference is the spec's process-emphasis procedure without openers_bottom, validated during design on 108 of the spec's emphasis examples"}, commonAssumptions...), QuickSec: 170, ThoroughSec: 900,
 		Explanation: "bounded symbolic execution of Parse+Render on every unit sequence up to the bound (unit classes are solver-enumerated, bytes within a class symbolic), compared byte for byte with the output of a transcription of the spec's delimiter-run algorithm"}
 	for n := int64(1); n <= 6; n++ {
 		cm(c11, "H_C11", n, 5, fmt.Sprintf("all sequences of %d units over the 5 ASCII classes", n), "quick")
@@ -418,6 +418,20 @@ func propSpecs() map[string]*PropSpec {
 		cm(c11, "H_C11", n, 3, fmt.Sprintf("all sequences of %d units over {*, _, letter/digit} (delimiter-dense strings)", n), "quick")
 	}
 	cm(c11, "H_C11", 7, 4, "all sequences of 7 units over {*, _, letter/digit, space}", "quick")
+	for n := int64(1); n <= 4; n++ {
+		cm(c11, "H_C11", n, 20, fmt.Sprintf("all sequences of %d units over {*, _, letter/digit, space, any character of U+0080..U+00FF (symbolic: control, NBSP, punctuation, symbol, letter)}", n), "quick")
+	}
+	cm(c11, "H_C11", 5, 20, "all sequences of 5 units over {*, _, letter/digit, space, any character of U+0080..U+00FF}", "thorough")
+	for k := int64(1); k <= 4; k++ {
+		cm(c11, "H_C11_stack", k, 0, fmt.Sprintf("processEmphasis from every delimiter stack of %d entries (character, length 1..3 enumerated; can-open / can-close flags symbolic)", k), "quick")
+	}
+	cm(c11, "H_C11_stack", 3, 1, "processEmphasis from every stack of 3 entries with stackBottom in 0..2", "quick")
+	cm(c11, "H_C11_stack", 4, 1, "processEmphasis from every stack of 4 entries with stackBottom in 0..2", "quick")
+	cm(c11, "H_C11_stack", 5, 2, "processEmphasis from every stack of 5 '*' entries that can open or close", "quick")
+	cm(c11, "H_C11_stack", 5, 3, "processEmphasis from every stack of 5 '_' entries that can open or close", "quick")
+	cm(c11, "H_C11_stack", 5, 0, "processEmphasis from every delimiter stack of 5 entries", "thorough")
+	cm(c11, "H_C11_stack", 6, 2, "processEmphasis from every stack of 6 '*' entries that can open or close", "thorough")
+	cm(c11, "H_C11_stack", 6, 3, "processEmphasis from every stack of 6 '_' entries that can open or close", "thorough")
 	cm(c11, "H_C11", 9, 3, "all sequences of 9 units over {*, _, letter/digit}", "thorough")
 	cm(c11, "H_C11", 8, 4, "all sequences of 8 units over {*, _, letter/digit, space}", "thorough")
 	cm(c11, "H_C11", 7, 5, "all sequences of 7 units over the 5 ASCII classes", "thorough")
